@@ -80,6 +80,40 @@ def children(seed=0, tier="quick", **_):
             term = [m for s, m in sim.broadcasts if m["detail"]["status"] in ("SUCCEEDED", "FAILED") and ":parent:" in m["detail"]["executionArn"]]
             if [m["detail"]["status"] for m in term] != ["FAILED"]:
                 probs.append("C15 %s: terminal notifications %s (the task must fail)" % (name, [m["detail"]["status"] for m in term]))
+    # the parent task times out while its synchronous child is blocked on a task: that task is cancelled too, a late
+    # reply must not resume the child
+    child2 = {"StartAt": "T1", "States": {"T1": {"Type": "Task", "Resource": "arn:aws:rpcmessage:local::function:slow", "Next": "T2"},
+                                          "T2": {"Type": "Task", "Resource": "arn:aws:rpcmessage:local::function:next", "End": True}}}
+    pasl = parent("arn:aws:states:::states:startExecution.sync", "child")
+    pasl["States"]["Call"]["TimeoutSeconds"] = 5
+    sim = S.Sim(pasl, {"x": 1}, name="parent", extra_machines={"child": (child2, "STANDARD")},
+                tasks={"slow": lambda p, k: {"late": 1}, "next": lambda p, k: {"n": 1}})
+    cases.append("parent-timeout-cancels-child-task")
+    n += 1
+    guard = 0
+    while not any(r.subject == "slow" for r in sim.requests) and sim.enabled() and guard < 50:
+        guard += 1
+        sim.step(0)
+    sim.eager_timers = True
+    guard = 0
+    while (sim.record() or {}).get("status") == "RUNNING" and guard < 50:        # let the deadline pass before the reply
+        guard += 1
+        acts = sim.enabled()
+        t = [i for i, a in enumerate(acts) if a[0] == "timer"]
+        o = [i for i, a in enumerate(acts) if a[0] == "deliver"]
+        if not t and not o:
+            break
+        sim.step((o or t)[0])
+    sim.eager_timers = False
+    sim.run()
+    rec = sim.record() or {}
+    if rec.get("status") != "FAILED" or rec.get("error") != "States.Timeout":
+        probs.append("C15 parent timeout: parent %s %r" % (rec.get("status"), rec.get("error")))
+    if any(c[0] == "next" for c in sim.task_calls):
+        probs.append("C15 parent timeout: the child's blocked task was not cancelled: its late reply resumed the child, which "
+                     "issued a new request")
+    if sim.crashes:
+        probs.append("C15 parent timeout: " + "; ".join(sim.crashes))
     if probs:
         return {"failed": True, "evaluations": n, "input": {"cases": cases}, "detail": "; ".join(probs)[:1500]}
     return {"failed": False, "evaluations": n, "distinct": n, "exhaustive": True, "samples": [{"case": c} for c in cases[:3]]}
